@@ -672,6 +672,11 @@ class Node:
         else:
             node = factory(child, parent=self, data_id=data_id, node_id=node_id)
 
+        if deep and source_node:
+            # Copy the descendants before the new node is linked, so the copy
+            # terminates if this node is part of the source branch
+            node._add_from(source_node)
+
         children = self._children
         if children is None:
             self._children = [node]
@@ -682,9 +687,6 @@ class Node:
             children.insert(idx, node)
         else:
             children.append(node)
-
-        if deep and source_node:
-            node._add_from(source_node)
 
         return node
 
